@@ -56,7 +56,9 @@ CALLEE_RAISES_ON_STR = {
     "datetime.date.fromisoformat": ["ValueError"],
     "datetime.datetime.strptime": ["ValueError"],
     "datetime.datetime.fromisoformat": ["ValueError"],
-    "re.compile": ["re.error", "OverflowError", "RecursionError"],
+    # ValueError: a repetition count of more than 4300 digits (`a{111...1}`) is converted with int(), which refuses
+    # (sys.int_max_str_digits, Python >= 3.11) before the parser can say "the repetition number is too large"
+    "re.compile": ["re.error", "OverflowError", "RecursionError", "ValueError"],
     "idna.encode": ["IDNAError", "UnicodeError"],
     "urllib.parse.unquote": [],
     "urllib.parse.urlsplit": ["ValueError"],
